@@ -245,32 +245,7 @@ def run(ctx):
 
     # ------------------------------------------------------------------ R4
     ctx.rule("R4", "FCIDUMP two-electron index order is the inverse of the reader's", "integrals come back on transposed positions")
-    fd = prog.format_op("fcidump", "dump_one")
-    okk = False
-    for n in fd.own_nodes():
-        if isinstance(n, ast.Subscript) and isinstance(n.slice, ast.Tuple) and len(n.slice.elts) == 4 and all(isinstance(e, ast.Name) for e in n.slice.elts):
-            sub = [e.id for e in n.slice.elts]
-            # the print statement in the same loop nest listing the four indices
-            for m in fd.own_nodes():
-                if isinstance(m, ast.JoinedStr):
-                    names = []
-                    for x in m.values:
-                        if isinstance(x, ast.FormattedValue):
-                            nn = [y.id for y in ast.walk(x.value) if isinstance(y, ast.Name)]
-                            if len(nn) == 1 and nn[0] in sub:
-                                names.append((nn[0], src_of(x.value)))
-                    if len(names) == 4:
-                        order = [a for a, _ in names]
-                        okk = True
-                        if sub == [order[0], order[2], order[1], order[3]]:
-                            ctx.ok("R4", f"writer prints (i j k l) = {order} for two_mo[{', '.join(sub)}] = <ik|jl>", f"{fd.module.relpath}:{n.lineno}")
-                        else:
-                            ctx.violate("R4", f"the FCIDUMP writer prints indices {order} for element [{', '.join(sub)}]; chemists' (ij|kl) = physicists' <ik|jl> needs element [{order[0]}, {order[2]}, {order[1]}, {order[3]}]", fd, n)
-                        bad = [s for _, s in names if not re.fullmatch(r"\w+ \+ 1", s)]
-                        if bad:
-                            ctx.violate("R4", f"FCIDUMP indices are printed as {bad} (must be one-based: index + 1)", fd, m)
-    if not okk:
-        ctx.violate("R4", "cannot find the four-index element / print statement pair in the FCIDUMP writer", fd, fd.node, construct="fcidump four-index writer")
+    check_fcidump_record_indices(ctx, "R4")
 
     # ------------------------------------------------------------------ R5
     ctx.rule("R5", "element and bond-type tables are bijections", "two symbols map to one number (or vice versa): a written label reloads as another element / bond type")
@@ -757,18 +732,12 @@ def check_fchk_packed_arrays(ctx, rid):
             ctx.violate(rid, f"FCHK '{label}': written as {flat.tolist()}, read back with {where} wrong: values are attached to other matrix elements / atoms", do, stmt, construct=f"fchk {label}: round trip differs")
 
 
-def check_fcidump_integrals(ctx, rid):
-    """FCIDUMP: the symmetry-unique integrals the writer lists are enough -- and correctly indexed -- for the reader to
-    rebuild the full arrays.  The writer's two integral loops are evaluated (model output file) on a 3-orbital set of
-    one- and two-electron integrals whose symmetry-distinct elements all differ; the reader's record loop (model line
-    iterator; `set_four_index_element` interpreted as well) must give both arrays back."""
-    from ..accessors import AccessorEval, Raised, Rec, TextSink
-    from ..symarr import NotSymbolic
+def _fcidump_written(prog):
+    """The integral loops of the FCIDUMP writer interpreted on a 3-orbital model whose symmetry-distinct one- and
+    two-electron integrals all differ: (text sink, one-electron array, two-electron array, loop statements)."""
+    from ..accessors import AccessorEval, Rec, TextSink
 
-    prog = ctx.prog
     do = prog.format_op("fcidump", "dump_one")
-    lo = prog.format_op("fcidump", "load_one")
-    licls = prog.cls("iodata.utils.LineIterator")
     iocls = prog.cls("iodata.iodata.IOData")
     n = 3
     orbit = lambda i, j, k, l: [(i, j, k, l), (j, i, l, k), (k, l, i, j), (l, k, j, i), (k, j, i, l), (i, l, k, j), (l, i, j, k), (j, k, l, i)]
@@ -785,17 +754,88 @@ def check_fcidump_integrals(ctx, rid):
     one = np.array([[0.5, 1.5, 2.5], [1.5, 3.5, 4.5], [2.5, 4.5, 5.5]])
     wloops = [st for st in do.body if isinstance(st, ast.For)]
     pre = [st for st in do.body if isinstance(st, ast.Assign) and any(isinstance(t, ast.Name) and t.id in ("one_mo", "two_mo", "nactive") for t in st.targets)]
-    rloop = next((st for st in lo.body if isinstance(st, ast.For) and any(isinstance(x, ast.Call) and isinstance(x.func, ast.Name) and x.func.id == "set_four_index_element" for x in ast.walk(st))), None)
-    if len(wloops) < 2 or rloop is None:
-        raise AnalysisError("fcidump: the integral loops of dump_one / the record loop of load_one were not found")
+    if len(wloops) < 2:
+        raise AnalysisError("fcidump: the integral loops of dump_one were not found")
     f0 = {name: None for name in iocls.fields}
     f0.update(one_ints={"core_mo": one}, two_ints={"two_mo": two}, extra={})
     data = Rec(iocls, **f0)
     sink = TextSink()
+    ev = AccessorEval(prog, iocls, limit=40000)
+    ev.module = do.module
+    ev._block([*pre, *wloops], {do.posparams[0]: sink, do.posparams[1]: data})
+    return sink, one, two, wloops
+
+
+def check_fcidump_record_indices(ctx, rid):
+    """The records the FCIDUMP writer prints carry the format's indices: `value i j k l` (one-based, chemists' notation)
+    is the element <ik|jl> of the physicists' array the object holds; `value i j 0 0` is the one-electron element."""
+    from ..accessors import Raised
+    from ..symarr import NotSymbolic
+
+    prog = ctx.prog
+    do = prog.format_op("fcidump", "dump_one")
     try:
-        ev = AccessorEval(prog, iocls, limit=40000)
-        ev.module = do.module
-        ev._block([*pre, *wloops], {do.posparams[0]: sink, do.posparams[1]: data})
+        sink, one, two, wloops = _fcidump_written(prog)
+    except Raised as exc:
+        ctx.violate(rid, f"FCIDUMP writer: evaluation raises {exc.args[0]}", do, do.node, construct="fcidump records: raises")
+        return
+    except NotSymbolic as exc:
+        raise AnalysisError(f"fcidump integral loops are outside the evaluation whitelist: {exc}") from exc
+    bad = None
+    n4 = n2 = 0
+    for ln in sink.text.split("\n"):
+        w = ln.split()
+        if not w:
+            continue
+        try:
+            v, idx = float(w[0]), [int(x) for x in w[1:5]]
+        except (ValueError, IndexError):
+            bad = f"a record that is not `value i j k l`: {ln!r}"
+            break
+        if len(idx) != 4 or min(idx) < 0 or max(idx) > 3:
+            bad = f"record {ln.strip()!r}: indices outside 0..3 for three orbitals"
+            break
+        i, j, k, l = idx
+        if k == 0 and l == 0 and i > 0 and j > 0:
+            n2 += 1
+            if abs(v - one[i - 1, j - 1]) > 1e-12:
+                bad = f"record {ln.strip()!r}: the one-electron integral ({i} {j}) of the object is {one[i - 1, j - 1]}"
+                break
+        elif min(idx) > 0:
+            n4 += 1
+            if abs(v - two[i - 1, k - 1, j - 1, l - 1]) > 1e-12:
+                bad = f"record {ln.strip()!r}: chemists' ({i}{j}|{k}{l}) is physicists' <{i}{k}|{j}{l}> = {two[i - 1, k - 1, j - 1, l - 1]} in the object (indices are one-based)"
+                break
+        else:
+            bad = f"record {ln.strip()!r}: zero index in a two-electron record (indices are written one-based)"
+            break
+    if bad is None and (n4 < 10 or n2 < 6):
+        bad = f"only {n4} two-electron and {n2} one-electron records for three orbitals"
+    if bad:
+        ctx.violate(rid, f"FCIDUMP writer, {bad}", do, wloops[0], construct=f"fcidump records: {bad}"[:170])
+    else:
+        ctx.ok(rid, f"FCIDUMP writer: {n4} two-electron records `v i j k l` = <ik|jl> and {n2} one-electron records `v i j 0 0`, one-based", f"{do.module.relpath}:{wloops[0].lineno}")
+
+
+def check_fcidump_integrals(ctx, rid):
+    """FCIDUMP: the symmetry-unique integrals the writer lists are enough -- and correctly indexed -- for the reader to
+    rebuild the full arrays.  The writer's two integral loops are evaluated (model output file) on a 3-orbital set of
+    one- and two-electron integrals whose symmetry-distinct elements all differ; the reader's record loop (model line
+    iterator; `set_four_index_element` interpreted as well) must give both arrays back."""
+    from ..accessors import AccessorEval, Raised, Rec, TextSink
+    from ..symarr import NotSymbolic
+
+    prog = ctx.prog
+    do = prog.format_op("fcidump", "dump_one")
+    lo = prog.format_op("fcidump", "load_one")
+    licls = prog.cls("iodata.utils.LineIterator")
+    n = 3
+    rloop = next((st for st in lo.body if isinstance(st, ast.For) and any(isinstance(x, ast.Call) and isinstance(x.func, ast.Name) and x.func.id == "set_four_index_element" for x in ast.walk(st))), None)
+    if rloop is None:
+        raise AnalysisError("fcidump: the record loop of load_one was not found")
+    wloops = [do.node]
+    try:
+        sink, one, two, wloops = _fcidump_written(prog)
         lines = [ln + "\n" for ln in sink.text.split("\n") if ln.strip()]
         lit = Rec(licls, filename="F", fh=iter(lines), lineno=0, stack=[])
         local = {lo.posparams[0]: lit, "one_mo": np.zeros((n, n)), "two_mo": np.zeros((n, n, n, n)), "core_energy": 0.0, "nbasis": n}
